@@ -32,6 +32,13 @@ def _scripts(n, seed, depth=(1, 2, 2, 3), multi=True, kinds=None, schemas=("sa",
                     items = [sqlgen.Item(sqlgen.col(named[0]))] if named and rnd.random() < 0.7 else [sqlgen.Item(None, is_star=True)]
                     stmts.append(sqlgen.Stmt("insert", g.target(), sqlgen.Select(items, [sqlgen.Group(sqlgen.Base(new.name, new.schema))])))
         parts = [sqlgen.render(s) for s in stmts]
+        if multi and len(stmts) > 1 and stmts[0].target is not None and rnd.random() < 0.35:
+            # a table of the script is also touched by statements that give it a role tag of their own: plain DDL / INSERT VALUES
+            # (written, nothing read) or a bare SELECT (read, nothing written) - before, between or after the statements that wire it
+            t0 = stmts[0].target
+            tn0 = (t0.schema + "." if t0.schema else "") + t0.name
+            extra = rnd.choice([f"create table {tn0} (c_1 int, c_2 int)", f"insert into {tn0} values (1, 'a')", f"select c_1 from {tn0}", f"select * from {tn0} where c_1 > 1"])
+            parts.insert(rnd.randrange(len(parts) + 1), extra)
         if multi and rnd.random() < 0.3:
             # DROP of: a table whose only lineage is an in-place UPDATE (no dataset read), an earlier target, an earlier source, a stranger
             which = rnd.choice(["inplace", "inplace", "target", "source", "stranger"])
